@@ -6,6 +6,7 @@ import ast
 from sa import terms as T
 from sa import yamlmini
 from sa.core import AnalysisError
+from sa.anchors import is_helper
 from sa.effects import PRMS_GLOBAL
 from sa.rules.common import effects, call_head, guard_literals, processing_path
 from sa.terms import tag
@@ -31,6 +32,9 @@ def global_read_discipline(ctx, rule='C12-R1'):
             continue    # a local alias: its uses are judged where they happen (terms are substituted)
         if e.kind == 'return' and e.ctx and e.value == G:
             continue    # an expanded accessor handing the dictionary to its caller: judged where the caller uses it
+        if e.kind == 'call' and tag(e.call) == 'call' and tag(e.call[1]) == 'g' and e.call[1][1] in p.funcs and \
+                is_helper(p, e.call[1][1]) and G in e.call[2]:
+            continue    # the dictionary handed to a helper: judged by what the (expanded) helper does with it
         if q in WRITERS:
             ctx.ok(rule, f'{q}: documented writer reads the global', e.loc())
             continue
